@@ -478,6 +478,7 @@ def main():
     outdir = os.path.join(BUILD, "run", "%s-%s" % (prop, tier))
     stats = {}
     oracle_fails = []
+    release_stats = None
     n_cases = n_dis = 0
     dis = []
     t2_ran = False
@@ -511,6 +512,16 @@ def main():
                 rdir = outdir + "-release"
                 rc2, _ = run_harness(prop, rexe, seed + 7, tier, rdir, budget=budget)
                 oracle_fails += parse_oracle(rdir)
+                try:
+                    rs = json.load(open(os.path.join(rdir, "stats.json")))
+                    release_stats = dict(ran=True, harness_rc=rc2, evaluations=rs.get("evaluations"),
+                                         oracle_checks=rs.get("oracle_checks"), oracle_failures=rs.get("oracle_failures"))
+                except Exception:
+                    release_stats = dict(ran=True, harness_rc=rc2, stats="unreadable")
+                if rc2 not in (0, 3):
+                    problems.append(("harness", "release-profile harness run ended with rc=%s" % rc2))
+            else:
+                problems.append(("cargo", "release-profile harness does not build"))
 
     # classify oracle failures
     known = [k for k in load_known() if k.get("property") == prop]
@@ -592,6 +603,8 @@ def main():
             cov[k] = v
     if chk:
         cov["coqchk"] = chk
+    if release_stats:
+        cov["release"] = release_stats
     ev = dict(property_id=prop, tier=tier, seed=seed, level=norm_level(meta.get("level", "proof")), coverage=cov,
               assumptions=meta.get("assumptions", []) + ["see coverage.trusted_base"],
               wall_s=round(wall, 2), violations=violations)
